@@ -585,6 +585,9 @@ def work_contentlength(item):
 
 CHUNK_SIZES = [b"-1", b"-5", b"-ff", b"+5", b"-0", b"+0", b"-5;ext=1", b" -5", b"- 5", b"--5", b"0x5", b"5_0", b"-",
                b"+", b"ffffffffffffffff", b"-ffffffffffffffff", b"5 5", b"\xb25"]
+# very long hex numbers (still far below MAX_LINE_SIZE): int(text, 16) has no digit limit, but turning the
+# result into a decimal string fails beyond 4300 digits (~3572 hex digits) in Python >= 3.11
+CHUNK_SIZES += [b"f" * n for n in (20, 3000, 3600, 4000, 10000)] + [b"1" + b"0" * 3999]
 
 
 def work_chunksize(item):
@@ -599,14 +602,18 @@ def work_chunksize(item):
         else:
             data = b"POST /k HTTP/1.1\r\nHost: h\r\n" + tail
             out, viol = run_guarded(server_exec, FSM, data, False) if target == "valet" else run_guarded(porter_exec, FSM, data, None)
-        fault = "chunk-size %r (%s)" % (val.decode("latin-1"), target)
+        shown = val.decode("latin-1")
+        if len(shown) > 24:
+            shown = "%s... (%d hex digits)" % (shown[:4], len(shown))
+        fault = "chunk-size %r (%s)" % (shown, target)
         part.evaluations += 1
         part.nontrivial(repr((target, "chunk-size", val)))
         part.outcome("%s:chunk-size:%s" % (target, out))
         if viol is not None:
             group, what = viol
-            part.violation(group, fault, "%s receives %r: %s" % (target, data, what),
-                           dict(side=target, family="chunk-size", value=val, bytes=data, what=what))
+            part.violation(group, fault, "%s receives a chunked message whose first chunk-size line is %s: %s" % (target, shown, what[:300]),
+                           dict(side=target, family="chunk-size", value_length=len(val), value=val if len(val) < 64 else val[:8] + b"...",
+                                message_prefix=data[:120], what=what[:300]))
     part.sample(dict(side=target, family="chunk-size", value=val, bytes=data, outcome=out))
     return part
 
